@@ -94,6 +94,17 @@ STRENGTH.update({
  "C16-6":"after a whitespace tag that starts nothing, a query offering every version must still be answered with the policy's best version",
  "C17-6":"account-name alphabet extended by backslash, TAB, a control character, % and multi-byte UTF-8",
  "C20-6":"a pair that draws from the system's randomness source in the point-granularity invariance pass"})
+BEFORE.update({k+"-7":"missed" for k in ["C02","C03","C09","C11","C12","C16","C17"]})
+BEFORE["C13-7"]="not run before the strengthening (the check had no case calling Verify; one was added on reading the change)"
+STRENGTH.update({
+ "C02-7":"the cleartext lines of the cleartext part also arrive inside fragment trains (one piece, three pieces) of the session's format",
+ "C03-7":"the wire monitor flags every data message whose keys derive from a D-H secret of 0, 1 or p-1 (own exponent or the peer's key zeroed): anyone derives those keys from the wire",
+ "C09-7":"an SMP run (data messages carrying TLVs, answered from inside Receive) started at any moment is part of the alphabet (ids …/M1)",
+ "C11-7":"questions of 1 … 30000 bytes (quick: 1023, 1024, 3000) besides the short one",
+ "C12-7":"after ANY abort (the peer's TLV or the victim's call) a run started by the peer, to which the victim contributes nothing but the secret, must succeed (no-recovery:after-abort); the recovery probe used to start with the victim's own abort",
+ "C13-7":"DSAPublicKey.Verify with every short byte string (alone and after 17 / 39 leading bytes) is among the parsers run under recover",
+ "C16-7":"query strings whose friendly text contains digits and further question marks",
+ "C17-7":"signature wire form: nonce scripted, digest solved for, so that s takes every byte length 1 … 20 and r (by search over 600 / 6000 nonces) falls short of 20 bytes several times; Sign's output must be the two values as 20-byte fields and verify"})
 rows=[]
 for d in sorted(glob.glob(os.path.join(ROOT,'seeded','C*'))):
     pid=os.path.basename(d)
